@@ -7,7 +7,7 @@ import "time"
 // about the rule for non-trivial cases.
 var props = map[string]propCfg{
 	"C08": {
-		Quick:    tierCfg{Shards: 8, Checks: 40000, Timeout: 4 * time.Minute},
+		Quick:    tierCfg{Shards: 8, Checks: 30000, Timeout: 4 * time.Minute},
 		Thorough: tierCfg{Shards: 16, Checks: 250000, Timeout: 40 * time.Minute, Env: []string{"VERIF_C08_CLI_EVERY=200"}},
 		Rule: "patch bytes: every prefix of every repository patch (exhaustive sweep), hostile constants in 7 frames, and generated inputs " +
 			"(random bytes, structured text, 1-3 token mutations of repository patches, template-grammar ill-typed patches) crossed with repository test inputs " +
@@ -198,6 +198,24 @@ var props = map[string]propCfg{
 			"an error injected into close() of the read descriptor, or any fault after which the file nevertheless holds its complete patched bytes, need not be reported",
 		},
 		MinNontriv: 300,
+	},
+	"C14": {
+		Race:     true,
+		Quick:    tierCfg{Shards: 8, Checks: 60, Timeout: 4 * time.Minute},
+		Thorough: tierCfg{Shards: 16, Checks: 500, Timeout: 30 * time.Minute},
+		Rule: "a patch set of 1-3 changes (mined from real code with metavariables and elisions, some with added import lines; repository test patches with their inputs; hand-written changes whose rewrite always fails / fails for some instances / adds an import) and 2-8 files (the file a change was made for, variants of it, unrelated files, files with planted instances, files with an injected syntax error, files with a generated-code header, byte-identical twins). " +
+			"cli (about 35% of the cases): every file alone in a tree that holds nothing else vs all together (1-2 patch files; drawn order and spelling of file, directory and '...' arguments with duplicates and overlaps, relative or absolute; in place, -d or --print-only; -v, --skip-generated, --skip-import-processing), the grouped run done twice on an identically re-created tree and optionally in a second arrangement: per-file bytes, per-file stdout, description lines and error texts, exit status must be those of the solo runs; identical bytes give identical results. " +
+			"seq (about 25%): one patch.File, 2-8 Apply calls over 2-6 inputs with repeats, each compared with a fresh Parse + single Apply (bytes, error text). " +
+			"conc (about 40%): the same followed by 2-16 goroutines x 1-3 Apply calls on that patch.File released together, then the sequence again, in a child process of the -race test binary; a race report, a dead or stuck child, or any differing result is a violation. " +
+			"Non-trivial = cli: the grouped run covers >= 2 files of which >= 1 is changed by the patches and >= 1 is not (unchanged, unparseable, failing rewrite, skipped), and the argument list is not the sorted list of those files; seq: >= 3 calls, >= 2 distinct inputs, an input repeated, >= 1 call that rewrites; conc: >= 2 goroutines, >= 2 distinct inputs in the batch, >= 1 rewritten. Distinct by sha256(case).",
+		Assumptions: []string{
+			"the harness does not control the Go scheduler: interleavings of concurrent Apply calls are sampled by stress (goroutines released together on 16 cores), not enumerated; a race that needs a rare schedule can be missed, a reported race is real (the race detector has no false positives)",
+			"'processed alone' = the CLI run on a tree that contains only that file at the same relative path, with the same flags and patch files",
+			"stdout of a grouped run is compared with the solo outputs concatenated in ascending path order; another order of the same pieces is counted as a C15 discrepancy, not judged here; the order of the error texts on the last stderr line is not judged",
+			"path arguments of one invocation are all relative or all absolute (the spelling of the name shown in -d/--print-only output follows the argument and is not part of the property)",
+			"a crash or time-out of a single run on its own is property C08's business: the case is not judged",
+		},
+		MinNontriv: 100,
 	},
 }
 
